@@ -181,6 +181,62 @@ Proof.
   apply in_by_existsb; vm_compute; reflexivity.
 Qed.
 
+(* the final statistics of a file built around a payload *)
+Definition gstats (ap : Z -> Z -> Z -> Z) (fmt : Z) (h : assoc) (R : list (list Z)) (evl : list vlr) (e : Z) : stats :=
+  if nonempty evl then set_ev (stats_of ap fmt h R) e (len evl) else stats_of ap fmt h R.
+
+Lemma gstats_hc ap fmt h R evl e : gstats ap fmt (hc h) R evl e = gstats ap fmt h R evl e.
+Proof. unfold gstats. now rewrite stats_of_hc. Qed.
+
+Lemma wfst_gstats ap fmt h R evl e : wfst (gstats ap fmt h R evl e).
+Proof. unfold gstats. destruct (nonempty evl); apply (wfst_stats_of ap fmt h R). Qed.
+
+Lemma gfile_parts ap h vl fmt recs evl payload f : gfile ap h vl fmt recs evl payload = Ok f ->
+  exists h0 b0 eb hR bR, enc_header (with_stats h stats0) vl false = Ok (h0, b0) /\ enc_vlrs true evl = Ok eb
+    /\ enc_header (with_stats h0 (gstats ap fmt h recs evl (len b0 + len payload))) vl true = Ok (hR, bR)
+    /\ f = bR ++ payload ++ eb /\ gfinal_hdr ap h vl fmt recs evl payload = Ok hR.
+Proof.
+  unfold gfile, gfinal_hdr, gstats. intros H.
+  destruct (enc_header (with_stats h stats0) vl false) as [[h0 b0]|e] eqn:E0; [|discriminate].
+  cbn [bind fst snd] in *. destruct (enc_vlrs true evl) as [eb|e] eqn:Eeb; [|discriminate]. cbn [bind] in *.
+  match type of H with bind ?E _ = _ => destruct E as [[hR bR]|e] eqn:ER; [|discriminate] end.
+  cbn [bind fst snd] in *. injection H as <-. exists h0, b0, eb, hR, bR.
+  split; [reflexivity|]. split; [reflexivity|]. split; [destruct evl; exact ER|]. split; reflexivity.
+Qed.
+
+(* the header of such a file, as LasHeader.read_from decodes it, in the vocabulary of AppendProofs *)
+Lemma parts_read g vl h0 b0 st hR bR rest :
+  enc_header g vl false = Ok (h0, b0) -> wfst st -> enc_header (with_stats h0 st) vl true = Ok (hR, bR) ->
+  wf_header hR vl = true ->
+  exists rh, dec_header (bR ++ rest) false = Ok rh /\ rh_vlrs rh = vl /\ rh_offset rh = len bR
+    /\ rh_psize rh = aint hR "point_size" /\ rh_fmt rh = compressed_id_to_uncompressed (aint hR "point_format_id")
+    /\ reads (aint h0 "version.minor") (rh_fields rh) hR.
+Proof.
+  intros E0 Wst ER Hwf.
+  destruct (dec_enc_header _ _ _ _ _ rest ER Hwf) as (rh & Hd & R1 & R2 & R3 & R4 & R5 & R6 & R7).
+  exists rh. rewrite (rb_minorR _ _ _ _ _ _ _ E0 Wst ER) in R5. repeat split; assumption.
+Qed.
+
+Lemma lz_astep_eq ap fmt g st c : lz_astep ap fmt g st c = astep ap fmt g st c.
+Proof. destruct c; reflexivity. Qed.
+
+Lemma fold_astep_filter ap fmt g : forall Bs st,
+  fold_left (lz_astep ap fmt g) (filter nonempty Bs) st = fold_left (astep ap fmt g) Bs st.
+Proof.
+  induction Bs as [|c Bs IH]; intros st; [reflexivity|]. cbn [filter]. destruct c as [|r c]; cbn [nonempty fold_left].
+  - apply IH.
+  - rewrite lz_astep_eq. apply IH.
+Qed.
+
+Lemma fold_sagree_astep ap m fmt g1 g2 :
+  (forall i, aint g1 (axis_name "scales" i) = aint g2 (axis_name "scales" i)) ->
+  (forall i, aint g1 (axis_name "offsets" i) = aint g2 (axis_name "offsets" i)) ->
+  forall Bs s1 s2, sagree m s1 s2 -> sagree m (fold_left (astep ap fmt g1) Bs s1) (fold_left (astep ap fmt g2) Bs s2).
+Proof.
+  intros Hs Ho. induction Bs as [|c Bs IH]; intros s1 s2 Ha; [exact Ha|]. cbn [fold_left].
+  apply IH. now apply sagree_astep.
+Qed.
+
 (* ------------------------------------------------------------------------------------ *)
 (* THE BACKEND CONTRACT                                                                  *)
 (* ------------------------------------------------------------------------------------ *)
@@ -613,6 +669,123 @@ Section Contract.
         split; [exact Hr2|]. split; [|reflexivity].
         unfold reader_touch_vlrs. replace (len recs >? 0) with true by lia. exact Hstrip.
   Qed.
+
+  (* ---------------------------------------------------------------------------------- *)
+  (* appending                                                                           *)
+  (* ---------------------------------------------------------------------------------- *)
+  (* an accepted append session on the compressed file of A produces the compressed file of A ++ the chunks
+     (followed by whatever bytes of the old file were not overwritten, which no pointer of the new file reaches) *)
+  Theorem laz_append_equiv : forall h vl fmt A evl Bs g0 g1 p,
+    wf_las ap h vl fmt A evl -> wf_laz h vl fmt A evl ->
+    wf_las ap h vl fmt (A ++ concat Bs) evl -> wf_laz h vl fmt (A ++ concat Bs) evl ->
+    laz_file_of h vl fmt A evl = Ok g0 -> laz_file_of h vl fmt (A ++ concat Bs) evl = Ok g1 ->
+    exists junk, lz_arun p g0 Bs = Ok (g1 ++ junk).
+  Proof using Hap H_isz H_feed H_open_sound H_open_serial H_open_parallel H_read H_seek H_rest H_append.
+    intros h vl fmt A evl Bs g0 g1 p WlA WzA WlAB WzAB Hg0 Hg1.
+    destruct (wf_facts _ _ _ _ _ WlA WzA) as (Hisz & HrokA & Hps & Hvlz).
+    destruct (wf_facts _ _ _ _ _ WlAB WzAB) as (_ & HrokAB & _ & _).
+    destruct WlA as (_ & _ & _ & Hwe & _ & _ & Hev4 & _ & Hfmt).
+    destruct WzA as (hzA & HfzA & HwfzA & Hclean & Hpid & Hfr).
+    destruct WzAB as (hzAB & HfzAB & HwfzAB & _ & _ & _).
+    rewrite laz_file_of_unfold in Hg0, Hg1. rewrite laz_final_hdr_unfold in HfzA, HfzAB.
+    set (d := lzd h fmt) in *.
+    destruct (gfile_parts _ _ _ _ _ _ _ _ Hg0) as (h0 & b0 & eb & hA & bA & E0 & Eeb & EA & Hg0e & HfA).
+    destruct (gfile_parts _ _ _ _ _ _ _ _ Hg1) as (h0' & b0' & eb' & hAB & bAB & E0' & Eeb' & EAB & Hg1e & HfAB).
+    rewrite E0 in E0'. injection E0' as <- <-. rewrite Eeb in Eeb'. injection Eeb' as <-.
+    rewrite HfzA in HfA. injection HfA as <-. rewrite HfzAB in HfAB. injection HfAB as <-.
+    rewrite gstats_hc in EA, EAB.
+    set (stA := gstats ap fmt h A evl (len b0 + len (enc d A))) in *.
+    set (stAB := gstats ap fmt h (A ++ concat Bs) evl (len b0 + len (enc d (A ++ concat Bs)))) in *.
+    pose proof (wfst_gstats ap fmt h A evl (len b0 + len (enc d A))) as WstA. fold stA in WstA.
+    pose proof (wfst_gstats ap fmt h (A ++ concat Bs) evl (len b0 + len (enc d (A ++ concat Bs)))) as WstAB. fold stAB in WstAB.
+    set (m := aint h0 "version.minor").
+    pose proof (rb_range _ _ _ _ _ WstA EA) as Hm. fold m in Hm.
+    (* decoding the header of g0 *)
+    destruct (parts_read _ _ _ _ _ _ _ (enc d A ++ eb) E0 WstA EA HwfzA) as (rh & Dz & Rv & Roff & Rps & Rfmt & Hr).
+    fold m in Hr. pose proof Hr as (Hget & Heh & Hev).
+    pose proof (rb_stats _ _ _ _ _ _ _ E0 WstA EA _ Hget) as Hag0. fold m in Hag0.
+    pose proof (rb_minor_hd _ _ _ _ _ _ _ E0 WstA EA _ Hget) as Hmin. fold m in Hmin.
+    pose proof (fun n => rb_core _ _ _ _ _ _ _ E0 WstA EA _ Hget n) as Hcore.
+    pose proof (fun n => rb_plain_wval _ _ _ _ _ _ _ E0 WstA EA _ Hget n) as Hplain. fold m in Hplain.
+    destruct (rb_bytes _ _ _ _ _ _ _ E0 WstA EA _ Heh Hev) as [Hb1 Hb2].
+    pose proof (rb_len _ _ _ _ _ _ _ E0 EA) as LA. pose proof (rb_len _ _ _ _ _ _ _ E0 EAB) as LAB.
+    set (hd := rh_fields rh) in *.
+    assert (aint h "version.minor" = m) as Hmh.
+    { unfold m. rewrite (open_plain_aint _ _ _ _ "version.minor" E0 eq_refl eq_refl). unfold hc. now rewrite aint_aset_other by reflexivity. }
+    assert (rh_fmt rh = fmt) as Rfmt'.
+    { rewrite Rfmt, (rb_aintR _ _ _ _ _ _ _ E0 WstA EA).
+      rewrite aint_with_stats_none by (apply sval_none; [exact WstA|reflexivity]).
+      rewrite (open_plain_aint _ _ _ _ "point_format_id" E0 eq_refl eq_refl).
+      unfold hc. rewrite aint_aset_same, Hpid. now destruct (bits_64 fmt Hfr) as (_ & -> & _). }
+    subst g0 g1.
+    (* the pieces of lz_arun *)
+    destruct (H_append p d A eb ltac:(now rewrite Hisz)) as (cs0 & Hao & Hcont).
+    assert (b_done B (fold_left (b_feed B) (filter nonempty Bs) cs0) = enc d (A ++ concat Bs)) as Hpay.
+    { rewrite <- (concat_filter_nonempty Bs). apply Hcont; [|apply filter_nonempty_Forall].
+      rewrite concat_filter_nonempty, Hisz. rewrite recs_ok_app in HrokAB. now apply andb_true_iff in HrokAB as [_ ?]. }
+    assert (find is_laszip (rh_vlrs rh) = Some (mk_laszip d)) as Hfind
+      by (rewrite Rv, Hvlz; now apply find_laszip_last).
+    assert (skipn (Z.to_nat (rh_offset rh)) (bA ++ enc d A ++ eb) = enc d A ++ eb) as Hsk
+      by (rewrite Roff, to_nat_len; now rewrite (skipn_app_exact bA _ _ eq_refl)).
+    (* the statistics after the chunks agree with those of the longer file, up to the EVLR pointer *)
+    assert (forall i, aint hd (axis_name "scales" i) = aint h (axis_name "scales" i)) as Hsc.
+    { intros i. destruct (Hcore _ (axis_core "scales" i (or_introl eq_refl))) as [-> _].
+      rewrite (open_plain_aint _ _ _ _ _ E0) by (destruct i as [|[|i]]; reflexivity). apply hc_axis. now left. }
+    assert (forall i, aint hd (axis_name "offsets" i) = aint h (axis_name "offsets" i)) as Hof.
+    { intros i. destruct (Hcore _ (axis_core "offsets" i (or_intror eq_refl))) as [-> _].
+      rewrite (open_plain_aint _ _ _ _ _ E0) by (destruct i as [|[|i]]; reflexivity). apply hc_axis. now right. }
+    pose proof (fold_sagree_astep ap m fmt hd h Hsc Hof Bs _ _ Hag0) as Hfold.
+    set (st1 := fold_left (astep ap fmt hd) Bs (stats_of_header hd)) in *.
+    (* unfold the session *)
+    unfold B_append, Laz.lz_arun. rewrite Dz. cbn [bind]. fold hd. rewrite Hfind. cbn [v_data mk_laszip].
+    rewrite Hsk, Hao, Hmin, Rfmt', Rv, Roff. rewrite fold_astep_filter. fold st1. rewrite Hpay.
+    destruct Hag0 as (W1 & _ & _ & _ & _ & _ & He0).
+    destruct (list_cases evl) as [Eevl|(e & es & Eevl)].
+    - (* no EVLRs *)
+      assert (eb = []) as -> by (rewrite Eevl in Eeb; cbn [enc_vlrs] in Eeb; now injection Eeb).
+      assert ((m >=? 4) && (s_nevlr (stats_of_header hd) >? 0) = false) as ->.
+      { destruct (m >=? 4) eqn:E4; [|reflexivity]. assert (m = 4) as M4 by lia.
+        destruct (He0 M4) as [_ Hn]. rewrite Hn. unfold stA, gstats. rewrite Eevl. cbn [nonempty].
+        destruct (s_nevlr_stats_of ap fmt h A) as [-> _]. reflexivity. }
+      cbn [bind]. cbv beta iota.
+      assert (sagree m st1 stAB) as Hag'.
+      { unfold stAB, gstats. rewrite Eevl. cbn [nonempty]. unfold stA, gstats in Hfold. rewrite Eevl in Hfold. cbn [nonempty] in Hfold.
+        rewrite (fold_astep ap Hap) in Hfold. exact Hfold. }
+      assert (same_out (enc_header (with_stats hd st1) (writer_vlrs vl true d) true) (enc_header (with_stats h0 stAB) (writer_vlrs vl true d) true)) as Hso.
+      { apply (enc_header_agree m); try assumption.
+        - reflexivity.
+        - apply Hcore. cbn; tauto.
+        - intros _. apply Hcore. cbn; tauto.
+        - intros n Hin Hs _. now apply Hplain. }
+      destruct (enc_header_transfer _ _ _ _ _ _ EAB Hso) as (h1' & Hh1).
+      rewrite Hh1. cbn [bind snd]. rewrite !app_nil_r. eexists. rewrite <- !app_assoc. reflexivity.
+    - (* EVLRs: version 1.4 *)
+      assert (m = 4) as M4.
+      { destruct Hev4 as [W|W]; [rewrite Eevl in W; discriminate|]. rewrite Hmh in W. lia. }
+      destruct (He0 M4) as [Hs Hn]. unfold stA, gstats in Hs, Hn. rewrite Eevl in Hs, Hn.
+      cbn [nonempty set_ev s_evlr_start s_nevlr] in Hs, Hn. rewrite <- Eevl in Hn.
+      rewrite Hs, Hn, M4.
+      pose proof (len_nonneg es) as Hes.
+      assert (len evl = 1 + len es) as Hl by (rewrite Eevl; unfold len; cbn [length]; lia).
+      replace ((4 >=? 4) && (len evl >? 0)) with true by lia.
+      rewrite <- LA, <- len_app, !to_nat_len. rewrite app_assoc, (skipn_app_exact (bA ++ enc d A) eb _ eq_refl).
+      pose proof (dec_enc_vlrs true evl eb [] Hwe Eeb) as Hdv. rewrite app_nil_r in Hdv. rewrite Hdv. cbn [bind fst].
+      rewrite Eevl. cbv beta iota. rewrite <- Eevl, Eeb.
+      assert (sagree m (lz_set_ev st1 (len bA + len (enc d (A ++ concat Bs))) (s_nevlr st1)) stAB) as Hag'.
+      { unfold stAB, gstats. rewrite Eevl. cbn [nonempty]. rewrite <- Eevl.
+        unfold stA, gstats in Hfold. rewrite Eevl in Hfold. cbn [nonempty] in Hfold. rewrite <- Eevl in Hfold.
+        rewrite fold_astep_set_ev, (fold_astep ap Hap) in Hfold. rewrite LA.
+        exact (sagree_close m _ _ _ _ _ M4 Hfold). }
+      assert (same_out (enc_header (with_stats hd (lz_set_ev st1 (len bA + len (enc d (A ++ concat Bs))) (s_nevlr st1))) (writer_vlrs vl true d) true)
+                       (enc_header (with_stats h0 stAB) (writer_vlrs vl true d) true)) as Hso.
+      { apply (enc_header_agree m); try assumption.
+        - reflexivity.
+        - apply Hcore. cbn; tauto.
+        - intros _. apply Hcore. cbn; tauto.
+        - intros n Hin Hsn _. now apply Hplain. }
+      destruct (enc_header_transfer _ _ _ _ _ _ EAB Hso) as (h1' & Hh1).
+      rewrite Hh1. cbn [bind snd]. eexists. rewrite <- !app_assoc. reflexivity.
+  Qed.
 End Contract.
 
 (* ------------------------------------------------------------------------------------ *)
@@ -659,3 +832,36 @@ Theorem conf_transparent_nonseekable : forall ap, ap_ok ap -> forall B, conformi
     /\ lz_points lg = recs /\ rh_vlrs (lz_h lg) = vl
     /\ rh_evlrs (lz_h lg) = (if aint h "version.minor" >=? 4 then Some evl else None).
 Proof. intros ap Hap B HB. use_contract HB. exact (laz_transparent_nonseekable ap Hap B isz0 dpos0 C1 C2 C3 C4 C5 C6 C7 C8 C9). Qed.
+
+Theorem conf_append_equiv : forall ap, ap_ok ap -> forall B, conforming B -> forall h vl fmt A evl Bs g0 g1 p,
+  wf_las ap h vl fmt A evl -> wf_laz ap B h vl fmt A evl ->
+  wf_las ap h vl fmt (A ++ concat Bs) evl -> wf_laz ap B h vl fmt (A ++ concat Bs) evl ->
+  B_file_of ap B h vl fmt A evl = Ok g0 -> B_file_of ap B h vl fmt (A ++ concat Bs) evl = Ok g1 ->
+  exists junk, B_append ap B p g0 Bs = Ok (g1 ++ junk).
+Proof. intros ap Hap B HB. use_contract HB. exact (laz_append_equiv ap Hap B isz0 dpos0 C1 C2 C3 C4 C5 C6 C7 C8 C9). Qed.
+
+(* appending to the compressed file and appending to the uncompressed file of the same data, then reading both:
+   the same records (the old ones followed by the chunks), VLRs, EVLRs, format, every non-layout header field *)
+Theorem conf_append_transparent : forall ap, ap_ok ap -> (forall s o x, 0 <= ap s o x) -> forall B, conforming B ->
+  forall h vl fmt A evl Bs f0 f1 g0 g1 p backends,
+  wf_las ap h vl fmt A evl -> wf_laz ap B h vl fmt A evl ->
+  wf_las ap h vl fmt (A ++ concat Bs) evl -> wf_laz ap B h vl fmt (A ++ concat Bs) evl ->
+  file_of ap h vl fmt A evl = Ok f0 -> file_of ap h vl fmt (A ++ concat Bs) evl = Ok f1 ->
+  B_file_of ap B h vl fmt A evl = Ok g0 -> B_file_of ap B h vl fmt (A ++ concat Bs) evl = Ok g1 ->
+  backends <> [] ->
+  exists ga lf lg, arun ap f0 Bs = Ok f1 /\ B_append ap B p g0 Bs = Ok ga
+    /\ read_file f1 = Ok lf /\ B_read B backends ga = Ok lg
+    /\ lz_points lg = A ++ concat Bs /\ lf_points lf = A ++ concat Bs
+    /\ rh_vlrs (lz_h lg) = vl /\ rh_vlrs (lf_h lf) = vl
+    /\ rh_evlrs (lz_h lg) = rh_evlrs (lf_h lf)
+    /\ rh_psize (lz_h lg) = rh_psize (lf_h lf) /\ rh_fmt (lz_h lg) = rh_fmt (lf_h lf)
+    /\ (forall n, In n (header_field_names (aint h "version.minor")) -> layout_field n = false ->
+          aget (rh_fields (lz_h lg)) n = aget (rh_fields (lf_h lf)) n).
+Proof.
+  intros ap Hap Hnn B HB h vl fmt A evl Bs f0 f1 g0 g1 p backends WlA WzA WlAB WzAB Hf0 Hf1 Hg0 Hg1 Hb.
+  destruct (conf_append_equiv ap Hap B HB h vl fmt A evl Bs g0 g1 p WlA WzA WlAB WzAB Hg0 Hg1) as (junk & Happ).
+  pose proof (append_equiv ap Hap Hnn h vl fmt A evl Bs f0 f1 WlA WlAB Hf0 Hf1) as Harun.
+  destruct (conf_transparent_whole ap Hap B HB h vl fmt (A ++ concat Bs) evl f1 g1 backends junk WlAB WzAB Hf1 Hg1 Hb)
+    as (lf & lg & R1 & R2 & P1 & P2 & V1 & V2 & E & S1 & S2 & _ & _ & F).
+  exists (g1 ++ junk), lf, lg. repeat (split; [assumption|]). exact F.
+Qed.
